@@ -47,7 +47,8 @@ def startsOk (m : MStep) : Bool :=
   let starts := m.obs.filter isStartOb
   match m.ev with
   | .syncDone (.ok a) =>
-    starts.isEmpty ||
+    -- no consumer is started only when the reply was not processed or the member is stopping
+    (starts.isEmpty && (m.obs == [.badOp] || m.snap.stopping)) ||
       starts.map (fun | .consumerStart _ t p _ _ _ => (t, p) | _ => (0, 0)) == flatten a &&
       starts.all fun
         | .consumerStart _ _ _ g mem off => g == m.snap.gen && mem == m.snap.member && off == groupConsumerStartOffset
@@ -177,12 +178,44 @@ def startsWithJoinIdsFrom (ids : Option (Nat × Int)) : List MStep → Bool
 
 def startsWithJoinIds (tr : List MStep) : Bool := startsWithJoinIdsFrom none tr
 
+/-- the STRICT reading of "after stop no group request other than the leave": after `stop()` has been
+    CALLED.  False of the code (known finding `group-requests-during-stop-drain`): while
+    `ConsumerGroup.stop` drains the consumers heartbeats continue and a pending rejoin may look the
+    coordinator up. -/
+def strictAfterStopFrom (pre : Snap) (called : Bool) : List MStep → Bool
+  | [] => true
+  | m :: ms =>
+    let called' := called || (isStopEv m.ev && pre.started && !pre.stopping)
+    (!called' || !m.obs.any isGroupReqOb) && strictAfterStopFrom m.snap called' ms
+
+def strictAfterStop (tr : List MStep) : Bool := strictAfterStopFrom (snap init) false tr
+
+/-- every heartbeat is sent by a member that is neither stopping nor wanting a rejoin, and quotes
+    the member's current generation and member id (`pre` = snapshot before the step) -/
+def heartbeatIdsFrom (pre : Snap) : List MStep → Bool
+  | [] => true
+  | m :: ms =>
+    (m.obs.all fun o => !isHeartbeatOb o || (!pre.rejoinNeeded && !pre.stopping && o == .heartbeat pre.gen pre.member)) &&
+      heartbeatIdsFrom m.snap ms
+
+def heartbeatIds (tr : List MStep) : Bool := heartbeatIdsFrom (snap init) tr
+
+/-- within a step the JoinGroup request is the LAST thing that happens: every consumer of the
+    previous generation was shut down / stopped before it, not after -/
+def joinLastStep (m : MStep) : Bool :=
+  match m.obs.reverse with
+  | [] => true
+  | _ :: earlier => !earlier.any isJoinOb
+
+def joinLast (tr : List MStep) : Bool := tr.all joinLastStep
+
 /-- every C16 check, by name -/
 def checks : List (String × (List MStep → Bool)) :=
   [("fenced", fenced), ("startsCommitted", startsCommitted), ("joinAdopted", joinAdopted), ("joinAfterDrain", joinAfterDrain),
    ("joinNoRunning", joinNoRunning), ("evictionStopsFirst", evictionStopsFirst), ("oneJoin", oneJoin),
    ("heartbeatOnlyStable", heartbeatOnlyStable), ("afterStopOnlyLeave", afterStopOnlyLeave),
-   ("noJoinAfterStopCalled", noJoinAfterStopCalled), ("startsWithJoinIds", startsWithJoinIds)]
+   ("noJoinAfterStopCalled", noJoinAfterStopCalled), ("startsWithJoinIds", startsWithJoinIds),
+   ("strictAfterStop", strictAfterStop), ("heartbeatIds", heartbeatIds), ("joinLast", joinLast)]
 
 def failing (tr : List MStep) : List String := (checks.filter fun c => !c.2 tr).map (·.1)
 
